@@ -140,7 +140,9 @@ impl World {
     /// Record frees of operation states reported by the allocator: `[40; op]` each.
     fn drain_frees(&mut self) {
         for addr in alloc::take_freed() {
-            if let Some(&op) = self.box_addr.get(&addr) {
+            // Only the first free of the address is the operation's state: afterwards the allocator
+            // may hand the address to anybody (a double free is reported by the allocator itself).
+            if let Some(op) = self.box_addr.remove(&addr) {
                 *self.frees_seen.entry(op).or_default() += 1;
                 self.obs.push(40);
                 self.obs.push(op as i128);
@@ -463,10 +465,14 @@ fn gen_cqe(r: &mut Rng, o: &OpSt, restart_bias: u64) -> Cq {
 pub fn one_case(r: &mut Rng, focus: &Focus, silent: &Arc<Mutex<Option<String>>>) -> Case {
     alloc::enable(false);
     alloc::unwatch_all();
+    let _ = alloc::take_bad_frees();
     let cap = *r.pick(&CAPS);
     let n_ops = r.range(1, 4) as usize;
     let n_events = r.range(4, 26) as usize;
-    simk::configure(simk::SetupConfig { sq_start: r.next() as u32, cq_start: r.next() as u32, ..Default::default() });
+    // Ring counters: half of the histories start within a few entries of the 32-bit wrap.
+    let near = |r: &mut Rng| if r.chance(1, 2) { u32::MAX - r.below(6) as u32 } else { r.next() as u32 };
+    let (sq_start, cq_start) = (near(r), near(r));
+    simk::configure(simk::SetupConfig { sq_start, cq_start, ..Default::default() });
     let ring = a10::Ring::config()
         .with_submission_queue_size(cap)
         .with_completion_queue_size(256)
@@ -604,9 +610,13 @@ pub fn one_case(r: &mut Rng, focus: &Focus, silent: &Arc<Mutex<Option<String>>>)
     let ring = w.ring.take().unwrap();
     let _ = std::panic::catch_unwind(std::panic::AssertUnwindSafe(move || drop(ring)));
     for addr in alloc::take_freed() {
-        if let Some(&op) = w.box_addr.get(&addr) {
+        if let Some(op) = w.box_addr.remove(&addr) {
             *w.frees_seen.entry(op).or_default() += 1;
         }
+    }
+    let double = alloc::take_bad_frees();
+    if double > 0 && w.oracle.is_none() {
+        w.oracle = Some(format!("{double} operation state(s) were freed twice"));
     }
     for i in 0..n_ops {
         if w.ops[i].ud.is_some() {
